@@ -23,6 +23,9 @@ type ProcCase struct {
 	DashAt int    `json:"dash_at"`
 	// Out: "stdout", "ofile" (-o path), "odash" (-o -)
 	Out string `json:"out"`
+	// Order, if non-empty, is the sequence of file indices given as FILE arguments: a file may be named
+	// more than once (its content is then read again) or the files may be given in another order.
+	Order []int `json:"order,omitempty"`
 	// StaleOut: with Out == "ofile" the output file already exists and holds this many bytes of old content.
 	StaleOut int `json:"stale_out,omitempty"`
 	// Fault: "", "dir" (a directory among the arguments: open succeeds, read fails with EISDIR),
@@ -40,6 +43,19 @@ func (pc *ProcCase) files() [][]byte {
 	return out
 }
 
+// ordered returns the file contents in argument order.
+func (pc *ProcCase) ordered() [][]byte {
+	fs := pc.files()
+	if len(pc.Order) == 0 {
+		return fs
+	}
+	out := make([][]byte, 0, len(pc.Order))
+	for _, i := range pc.Order {
+		out = append(out, fs[i])
+	}
+	return out
+}
+
 func (pc *ProcCase) setFiles(fs [][]byte) {
 	pc.FilesB64, pc.FilesTxt = nil, nil
 	for _, f := range fs {
@@ -50,7 +66,7 @@ func (pc *ProcCase) setFiles(fs [][]byte) {
 
 // JudgeCase returns the equivalent Case the oracle judges.
 func (pc *ProcCase) JudgeCase() Case {
-	fs := pc.files()
+	fs := pc.ordered()
 	var in []byte
 	k := -1
 	for i, f := range fs {
@@ -79,14 +95,23 @@ func ExecProc(bin, dir string, pc *ProcCase) (Outcome, string, error) {
 		return Outcome{}, "", err
 	}
 	defer os.RemoveAll(dir)
-	fs := pc.files()
-	var args []string
-	var stdinPath string
-	for i, f := range fs {
-		p := filepath.Join(dir, fmt.Sprintf("f%d.pql", i))
-		if err := os.WriteFile(p, f, 0o644); err != nil {
+	raw := pc.files()
+	for i, f := range raw {
+		if err := os.WriteFile(filepath.Join(dir, fmt.Sprintf("f%d.pql", i)), f, 0o644); err != nil {
 			return Outcome{}, "", err
 		}
+	}
+	order := pc.Order
+	if len(order) == 0 {
+		for i := range raw {
+			order = append(order, i)
+		}
+	}
+	fs := pc.ordered()
+	var args []string
+	var stdinPath string
+	for i := range fs {
+		p := filepath.Join(dir, fmt.Sprintf("f%d.pql", order[i]))
 		if (pc.Fault == "dir" || pc.Fault == "missing") && i == pc.FaultAt {
 			args = append(args, faultPath(dir, pc.Fault))
 		}
@@ -215,6 +240,18 @@ func GenProcCase(r *prng.Rand, fk FaultKinds) *ProcCase {
 			pc.DashAt = r.Intn(len(fs))
 		}
 	}
+	if pc.Mode == "files" && r.Chance(1, 5) {
+		// name a file twice / give the files in another order: the input is the concatenation in ARGUMENT order
+		n := len(fs)
+		for i := 0; i < n; i++ {
+			pc.Order = append(pc.Order, i)
+		}
+		for extra := r.Range(1, 2); extra > 0; extra-- {
+			at := r.Intn(len(pc.Order) + 1)
+			pc.Order = append(pc.Order[:at], append([]int{r.Intn(n)}, pc.Order[at:]...)...)
+		}
+		fk["proc:file-argument-repeated"]++
+	}
 	pc.Out = []string{"stdout", "stdout", "ofile", "odash"}[r.Intn(4)]
 	if pc.Out == "ofile" && r.Chance(1, 2) {
 		pc.StaleOut = []int{10, 3000, 100000}[r.Intn(3)]
@@ -227,7 +264,7 @@ func GenProcCase(r *prng.Rand, fk FaultKinds) *ProcCase {
 			fk["proc:stdin-is-a-directory"]++
 		case r.Chance(1, 2):
 			pc.Fault = "dir"
-			pc.FaultAt = r.Intn(len(fs) + 1)
+			pc.FaultAt = r.Intn(len(fs) + len(pc.Order)/2 + 1)
 			fk["proc:directory-argument(EISDIR)"]++
 		default:
 			pc.Fault = "missing"
